@@ -10,8 +10,9 @@ Every operation follows the code line by line (`send` :55-67, `Sender::drop` :10
 :151-166, `Receiver::sender` :141-145, `Receiver::drop` :168-174) with **one exception, `close`
 (:73-75) and the corresponding test in `poll_next`**: property C16 demands that `close` wakes a
 parked receiver and that a closed channel drains and then ends, while the unchanged tree only clears
-`has_receiver` (DESIGN.md §7 F5).  The model implements what the property demands — exactly the
-behaviour of `/verif/fixes/C16-close-wakes.patch`:
+`has_receiver` (DESIGN.md §7 F5; reproduced by `corpus/C16/f5-*.ops`).  The model implements what
+the property demands — exactly the behaviour of `/verif/fixes/C16-close-wakes.patch`, which has since
+been applied to /repo (`fix: local-channel Sender::close ends the receiver's stream and wakes it`):
 
 * `close`: `has_receiver = false; blocked_recv.wake()`;
 * `poll_next`: ends the stream when `strong_count == 1 || !has_receiver`.
